@@ -1,7 +1,7 @@
 //! C07 correspondence: position arithmetic, PMMR over VecBackend, Merkle proofs.
 use grin_core::core::hash::Hash;
 use grin_core::core::merkle_proof::MerkleProof;
-use grin_core::core::pmmr::{self, ReadablePMMR, VecBackend, PMMR};
+use grin_core::core::pmmr::{self, ReadablePMMR, ReadonlyPMMR, RewindablePMMR, VecBackend, PMMR};
 use gvharness::elem::Elem;
 use gvharness::*;
 
@@ -272,6 +272,174 @@ fn corrupt(out: &mut Out, rng: &mut Rng, pr: &MerkleProof, root: Hash, el: &Elem
 	}
 }
 
+fn proof_line<P: ReadablePMMR>(out: &mut Out, p: &P, size: u64, pos: u64) -> Option<MerkleProof> {
+	let proof = p.merkle_proof(pos);
+	match &proof {
+		Ok(pr) => out.line(&format!("pmmr vproof {} {}", size, pos), &format!("{} {}", pr.mmr_size, hashes(&pr.path))),
+		Err(_) => out.line(&format!("pmmr vproof {} {}", size, pos), "err"),
+	}
+	proof.ok()
+}
+
+/// views at a size (`PMMR::at`, `ReadonlyPMMR::at`, `RewindablePMMR` moved back and forth) over a
+/// backend, and the same views after leaves were pruned: root, peaks and the proofs of present
+/// leaves must be those of the defining construction on the first k elements
+fn views(out: &mut Out, rng: &mut Rng, thorough: bool) {
+	let sizes: Vec<u64> = if thorough {
+		(1..=40).chain([63, 64, 65, 100, 127, 128, 129, 255, 257]).collect()
+	} else {
+		(1..=20).chain([31, 32, 33, 65]).collect()
+	};
+	for &n in &sizes {
+		let mut ba = VecBackend::<Elem>::new();
+		let mut size = 0u64;
+		out.raw("pmmr new");
+		let mut elems: Vec<Elem> = vec![];
+		let mut view_sizes = vec![0u64];
+		for _ in 0..n {
+			let e = Elem(rng.bytes(8));
+			let mut p = PMMR::at(&mut ba, size);
+			let res = p.push(&e);
+			size = p.size;
+			elems.push(e.clone());
+			let rhs = match res {
+				Ok(_) => format!("{} {}", size, root_str(p.root())),
+				Err(_) => "err".to_string(),
+			};
+			out.line(&format!("pmmr push {}", hex(&e.0)), &rhs);
+			view_sizes.push(size);
+		}
+		// read-only views at every earlier size
+		for (k, &s) in view_sizes.iter().enumerate() {
+			if n > 24 && !rng.chance(1, 5) && s != size {
+				continue;
+			}
+			let v = ReadonlyPMMR::at(&ba, s);
+			out.line(&format!("pmmr vroot {}", s), &root_str(v.root()));
+			out.line(&format!("pmmr vpeaks {}", s), &hashes(&v.peaks()));
+			let root = v.root().unwrap();
+			for i in 0..(k as u64 + 1).min(n) {
+				if k > 12 && !rng.chance(1, 4) {
+					continue;
+				}
+				let pos = pmmr::insertion_to_pmmr_index(i);
+				if let Some(pr) = proof_line(out, &v, s, pos) {
+					let ok = pr.verify(root, &elems[i as usize], pos).is_ok();
+					if !ok {
+						out.raw(&format!("#ORACLE-FAIL C07 proof from a view at size {} for present leaf {} does not verify against the view's root", s, pos));
+					}
+				}
+			}
+		}
+		// one rewindable view moved backwards and forwards
+		{
+			let mut rv = RewindablePMMR::<Elem, _>::new(&ba);
+			let mut walk: Vec<u64> = vec![];
+			for _ in 0..(if thorough { 12 } else { 6 }) {
+				walk.push(rng.below(size + 1));
+				walk.push(view_sizes[rng.below(view_sizes.len() as u64) as usize]);
+			}
+			walk.push(size);
+			for pos in walk {
+				let r = rv.rewind(pos);
+				let ro = rv.as_readonly();
+				let s = ro.unpruned_size();
+				out.line(&format!("pmmr rewind {}", pos), &if r.is_ok() { s.to_string() } else { "err".into() });
+				out.line(&format!("pmmr vroot {}", s), &root_str(ro.root()));
+				out.line(&format!("pmmr vpeaks {}", s), &hashes(&ro.peaks()));
+				let nl = pmmr::n_leaves(s);
+				if nl > 0 {
+					let i = rng.below(nl);
+					let p0 = pmmr::insertion_to_pmmr_index(i);
+					if let (Some(pr), Ok(root)) = (proof_line(out, &ro, s, p0), ro.root()) {
+						if pr.verify(root, &elems[i as usize], p0).is_err() {
+							out.raw(&format!("#ORACLE-FAIL C07 proof from a rewound view at size {} for leaf {} does not verify", s, p0));
+						}
+					}
+				}
+			}
+		}
+		// pruning: the last leaf first (a lone-leaf peak when n is odd), then random leaves
+		let mut order: Vec<u64> = vec![n - 1];
+		for _ in 0..(n / 2).min(12) {
+			order.push(rng.below(n));
+		}
+		let mut pruned: Vec<u64> = vec![];
+		for li in order {
+			let pos = pmmr::insertion_to_pmmr_index(li);
+			let mut p = PMMR::at(&mut ba, size);
+			let r = p.prune(pos);
+			out.line(
+				&format!("pmmr prune {} {}", size, pos),
+				&match r {
+					Ok(b) => b.to_string(),
+					Err(_) => "err".into(),
+				},
+			);
+			if !pruned.contains(&li) {
+				pruned.push(li);
+			}
+			out.line(&format!("pmmr vroot {}", size), &root_str(p.root()));
+			out.line(&format!("pmmr vpeaks {}", size), &hashes(&p.peaks()));
+			let root = p.root().unwrap();
+			for i in 0..n {
+				if n > 20 && !rng.chance(1, 4) {
+					continue;
+				}
+				let q = pmmr::insertion_to_pmmr_index(i);
+				let pr = proof_line(out, &p, size, q);
+				match pr {
+					Some(pr) => {
+						if pruned.contains(&i) {
+							out.raw(&format!("#ORACLE-FAIL C07 proof produced for pruned leaf {} size {}", q, size));
+						} else if pr.verify(root, &elems[i as usize], q).is_err() {
+							out.raw(&format!("#ORACLE-FAIL C07 proof for present leaf {} does not verify after leaves {:?} were pruned, size {}", q, pruned, size));
+						}
+					}
+					None => {
+						if !pruned.contains(&i) {
+							out.raw(&format!("#ORACLE-FAIL C07 no proof for present leaf {} after leaves {:?} were pruned, size {}", q, pruned, size));
+						}
+					}
+				}
+			}
+			// non-leaf position
+			let mut p = PMMR::at(&mut ba, size);
+			if size > 2 {
+				out.line(&format!("pmmr prune {} {}", size, 2), &match p.prune(2) { Ok(b) => b.to_string(), Err(_) => "err".into() });
+			}
+		}
+		// appending after pruning
+		for _ in 0..3 {
+			let e = Elem(rng.bytes(8));
+			let mut p = PMMR::at(&mut ba, size);
+			let res = p.push(&e);
+			size = p.size;
+			elems.push(e.clone());
+			let rhs = match res {
+				Ok(_) => format!("{} {}", size, root_str(p.root())),
+				Err(_) => "err".to_string(),
+			};
+			out.line(&format!("pmmr push {}", hex(&e.0)), &rhs);
+			let root = p.root().unwrap();
+			for i in 0..elems.len() as u64 {
+				if pruned.contains(&i) || (n > 20 && !rng.chance(1, 4)) {
+					continue;
+				}
+				let q = pmmr::insertion_to_pmmr_index(i);
+				match proof_line(out, &p, size, q) {
+					Some(pr) => {
+						if pr.verify(root, &elems[i as usize], q).is_err() {
+							out.raw(&format!("#ORACLE-FAIL C07 proof for present leaf {} does not verify after pruning and appending, size {}", q, size));
+						}
+					}
+					None => out.raw(&format!("#ORACLE-FAIL C07 no proof for present leaf {} after pruning and appending, size {}", q, size)),
+				}
+			}
+		}
+	}
+}
+
 fn main() {
 	quiet_panics();
 	let args: Vec<String> = std::env::args().collect();
@@ -284,6 +452,9 @@ fn main() {
 	}
 	if mode == "mmr" || mode == "all" {
 		mmr(&mut out, &mut rng, thorough);
+	}
+	if mode == "views" || mode == "all" {
+		views(&mut out, &mut rng, thorough);
 	}
 	out.flush();
 }
